@@ -141,3 +141,14 @@ Theorem c12_tie_gex_names : In gex256 gex_algs /\ In gex256 rec_chg_names.
 Proof. exact tie_gex_names. Qed.
 Theorem c12_tie_2048_warning : gex_warn_text = k2_WARN_2048BIT_MODULUS /\ hk_two2k_warning = k2_WARN_2048BIT_MODULUS.
 Proof. exact tie_2048_warning. Qed.
+
+(* the decisions of GEXTest.run() as they read now (T1c translation of the current source): early break, follow-up request against peers calling
+   themselves OpenSSH (any banner whose software part contains the word), openssh_test_updated *)
+Theorem c12_tie_gex_break : forall b sm, ((sm <=? b) && (0 <? sm))%Z = src_gex_break b sm.
+Proof. exact tie_gex_break. Qed.
+Theorem c12_tie_gex_second_pass : forall sm sw,
+  ((sm =? gex_openssh_trigger)%Z && is_openssh sw) =
+  match sw with Some s => src_gex_second_pass sm true s | None => src_gex_second_pass sm false EmptyString end.
+Proof. exact tie_gex_second_pass. Qed.
+Theorem c12_tie_gex_updated : forall sm2, ((0 <? sm2) && negb (sm2 =? gex_openssh_trigger))%Z = src_gex_updated sm2.
+Proof. exact tie_gex_updated. Qed.
